@@ -102,6 +102,25 @@ def main():
                                             'cfg': {'lmtp': lmtp, 'pipelining': pipe, 'kind': 'smtp', 'deadline': 0, 'stages': sorted(script)},
                                             'ev': ev}, separators=(',', ':')) + '\n')
                         n += 1
+    # ---- recipients accepted with another 2xx code than 250 (251 will forward, 252 cannot verify): accepted all the same
+    for lmtp in (False, True):
+        for pipe in (False, True):
+            for rc in itertools.product([250, 251, 252, 550], repeat=2):
+                if all(c == 250 for c in rc):
+                    continue
+                for eod in (itertools.product([250, 450, 550], repeat=2) if lmtp else [(250,), (450,), (550,)]):
+                    idx += 1
+                    if idx % nshards != shard:
+                        continue
+                    script = {'rcpt': list(rc), 'eod': list(eod) if lmtp else eod[0]}
+                    r = rdrv.RelayRun(lmtp, pipe, [script])
+                    r.attempt(1, 2)
+                    ev = r.run_to_end()
+                    stats['executions'] += 1
+                    f.write(json.dumps({'id': shard + n * nshards, 'cls': ('lmtp' if lmtp else 'smtp') + '-other2xx',
+                                        'cfg': {'lmtp': lmtp, 'pipelining': pipe, 'kind': 'smtp', 'deadline': 0, 'stages': sorted(script)},
+                                        'ev': ev}, separators=(',', ':')) + '\n')
+                    n += 1
     # ---- an address listed more than once: every copy is answered alike by the peer, every position must get that answer
     for lmtp in (False, True):
         for addrs in ([0, 0, 1], [0, 1, 0], [0, 1, 1], [0, 0], [1, 0, 0, 1]):
